@@ -161,6 +161,7 @@ func (s *streamer) heartbeat() {
 		s.blockedMu.Unlock()
 
 		for _, stream := range streams {
+			verifGate("streamer.heartbeat.beforeUnblock")
 			stream.tryUnblock()
 		}
 	}
